@@ -282,10 +282,14 @@ func main() {
 		c.Drv = d
 		defer d.Close()
 	}
-	scratch, err := os.MkdirTemp("", "verif-"+id+"-")
+	// a worker sub-command (C01W, C12W, …) may be killed by its parent or leave through os.Exit, and
+	// then its deferred clean-up does not run: children create their scratch directory INSIDE the
+	// parent's, which the parent removes
+	scratch, err := os.MkdirTemp(os.Getenv("VERIF_PARENT_SCRATCH"), "verif-"+id+"-")
 	if err != nil {
 		fatal("%v", err)
 	}
+	os.Setenv("VERIF_PARENT_SCRATCH", scratch)
 	c.Scratch = scratch
 	func() {
 		defer os.RemoveAll(scratch)
